@@ -2144,6 +2144,34 @@ func genExpandCases(r *rng, n int, tier string, cw *caseWriter) {
 			}
 		}
 	}
+	// 0c. pointers that pass through each operation of a path item (the seven verbs hold different content; a second path item
+	//     defines one verb only), every way of supplying the root
+	{
+		type m = map[string]interface{}
+		verbs := []string{"get", "put", "post", "delete", "options", "head", "patch"}
+		all, one := m{}, m{}
+		for _, v := range verbs {
+			all[v] = m{"description": "the " + v + " operation",
+				"parameters": []interface{}{m{"name": "p-" + v, "in": "query", "type": "string", "description": "parameter of " + v}},
+				"responses":  m{"200": m{"description": "answer of " + v, "schema": m{"type": "string", "description": "schema of " + v}}}}
+		}
+		one["head"] = all["head"]
+		g := exFromGeneric(m{"file:///vb/root.json": m{"swagger": "2.0", "info": m{"title": "t", "version": "1"}, "paths": m{"/all": all, "/one": one}}}, "file:///vb/root.json")
+		for _, pth := range []string{"~1all", "~1one"} {
+			for _, v := range verbs {
+				for _, rc := range []struct{ kind, tail string }{{"Response", "/responses/200"}, {"Parameter", "/parameters/0"}, {"Schema", "/responses/200/schema"}} {
+					ref := "#/paths/" + pth + "/" + v + rc.tail
+					for _, mode := range []string{"typed", "generic", "none"} {
+						c := g.call("resolve", exOpts{})
+						c.Kind, c.Ref, c.RootMode = rc.kind, ref, mode
+						view, _ := exGoView(g, c, exRun(c), false)
+						emit(orderedMap{{"op", "resolve"}, {"nt", true}, {"kind", rc.kind}, {"docs", g.Docs}, {"root", g.Root}, {"ref", ref}, {"root_mode", mode},
+							{"missing", []string{}}, {"expect", "through-operation"}, {"go", view}})
+					}
+				}
+			}
+		}
+	}
 	for gi, g0 := range graphs {
 		g := g0
 		if gi%3 == 2 {
